@@ -84,8 +84,9 @@ pub fn final_image(case: &Case) -> Option<(Image, Vec<String>, Policy)> {
 }
 
 pub fn evaluate_ioerr(prop: &str, case: &Case, fault: &Fault) -> Vec<Failure> {
-    let Fault::IoErr { call, errno, persistent, consumed } = fault else { return Vec::new() };
+    let Fault::IoErr { call, errno, persistent, consumed, damage } = fault else { return Vec::new() };
     let Some((image, names, policy)) = final_image(case) else { return Vec::new() };
+    let image = if damage.is_empty() { image } else { crate::damage::apply_damage(&image, damage) };
     let Some(calls) = baseline_calls(&image, &names, policy, &case.knobs) else { return Vec::new() };
     let f = IoFault { at: *call, errno: *errno, persistent: *persistent, consumed: *consumed };
     match inject(&image, &names, policy, &case.knobs, calls.len(), &f) {
